@@ -476,6 +476,9 @@ func Extract(hi, lo int, a *Term) *Term {
 			return Extract(hi-lw, lo-lw, a.Args[0])
 		}
 	}
+	if a.Op == "extract" {
+		return Extract(hi+a.P2, lo+a.P2, a.Args[0])
+	}
 	t := newTerm("extract", SBV(w), a)
 	t.P1, t.P2 = hi, lo
 	return t
@@ -516,6 +519,13 @@ func Concat(hi, lo *Term) *Term {
 		v := new(big.Int).Lsh(hi.C, uint(lo.S.W))
 		v.Or(v, lo.C)
 		return BVC(hi.S.W+lo.S.W, v)
+	}
+	// adjacent slices of one value: concat(x[h1:l1], x[l1-1:l2]) = x[h1:l2]
+	if hi.Op == "extract" && lo.Op == "extract" && hi.Args[0] == lo.Args[0] && hi.P2 == lo.P1+1 {
+		return Extract(hi.P1, lo.P2, hi.Args[0])
+	}
+	if hi.Op == "extract" && hi.P2 == lo.S.W && hi.Args[0] == lo {
+		// concat(x[h:w], x) where x is the low part already whole — not a slice pair
 	}
 	return newTerm("concat", SBV(hi.S.W+lo.S.W), hi, lo)
 }
